@@ -6,6 +6,7 @@ pub mod c07;
 pub mod c08;
 pub mod c09;
 pub mod c10;
+pub mod c11;
 pub mod c13;
 pub mod c16;
 
@@ -22,6 +23,7 @@ pub fn get(prop: &str) -> Option<Box<dyn Check>> {
         "C08" => Some(Box::new(c08::C08::new())),
         "C09" => Some(Box::new(c09::C09::new())),
         "C10" => Some(Box::new(c10::C10::new())),
+        "C11" => Some(Box::new(c11::C11::new())),
         "C13" => Some(Box::new(c13::AsmCheck::new(c13::Which::C13))),
         "C16" => Some(Box::new(c16::C16::new())),
         _ => None,
